@@ -28,11 +28,11 @@ from .. import core
 from . import trans_model
 
 
-def bounded_enumeration(run_):
+def bounded_enumeration(run_, tier="quick"):
     script = os.path.join(core.VERIF, "replays", "c01_transitions.py")
     env = dict(os.environ, PYTHONPATH=core.SRC)
     try:
-        p = subprocess.run([core.NATIVE_PY, script, "json"], capture_output=True, text=True, timeout=1200, env=env)
+        p = subprocess.run([core.NATIVE_PY, script, "json"] + (["thorough"] if tier == "thorough" else []), capture_output=True, text=True, timeout=7200, env=env)
         res = json.loads(p.stdout.strip().splitlines()[-1])
     except Exception as e:  # noqa: BLE001
         run_.ob("transitions/exact-kernel-enumeration", core.ERROR, "native-exec", detail=f"{type(e).__name__}: {e}; {p.stderr[-500:] if 'p' in dir() else ''}", klass="bounded")
@@ -61,4 +61,4 @@ def run(run_, tier):
     it4 = trans_model.make_interp(run_)
     trans_model.termination_and_aux(run_, it4)
     trans_model.criteria_static(run_)
-    bounded_enumeration(run_)
+    bounded_enumeration(run_, tier)
